@@ -9,12 +9,18 @@ Lemma safe_conc : safe_m conc. Proof. intros s H. exact H. Qed.
 Lemma safe_next_cat n : forall sep acc, safe_m (next_cat n sep acc).
 Proof. induction n as [|n IH]; intros; cbn [next_cat]; sm. Qed.
 #[export] Hint Resolve safe_next_cat : safe.
+Lemma safe_suffix_loop g : forall body, safe_m (suffix_loop g body).
+Proof. induction g as [|g IH]; intros; cbn [suffix_loop]; sm. Qed.
+#[export] Hint Resolve safe_suffix_loop : safe.
 Lemma safe_format_type g : safe_m (format_type g).
 Proof. induction g as [|g IH]; cbn [format_type]; sm. Qed.
 #[export] Hint Resolve safe_format_type : safe.
 Lemma safe_deprecated_line p t : safe_m (deprecated_line p t).
 Proof. unfold deprecated_line. sm. Qed.
 #[export] Hint Resolve safe_deprecated_line : safe.
+Lemma safe_member_loop g : forall acc ao, safe_m (member_loop g acc ao).
+Proof. induction g as [|g IH]; intros; cbn [member_loop]; sm. Qed.
+#[export] Hint Resolve safe_member_loop : safe.
 Lemma safe_format_enum_loop g : forall acc, safe_m (format_enum_loop g acc).
 Proof. induction g as [|g IH]; intros; cbn [format_enum_loop]; sm. Qed.
 #[export] Hint Resolve safe_format_enum_loop : safe.
